@@ -4,6 +4,7 @@ The model's comparison functions take the logical content (lists of object value
 the correspondence check ties them to the real operators under different junk fillings of the memory.
 -/
 import Cntgs.CompareProofs
+import Cntgs.FastPathProofs
 namespace Cntgs.C14
 
 /-- `a > b` is `b < a`, `a <= b` is `!(b < a)`, `a >= b` is `!(a < b)` — references and elements -/
@@ -66,5 +67,21 @@ theorem vec_lt_is_lexicographical (ps : List Param) (fa fb : List Nat) (a b : Li
     vecLt ps fa fb a b = lexBy (elemLt ps) a b := by
   unfold vecLt seqLt
   rcases h with h | h <;> simp [h]
+
+/-- … and on the whole-buffer (memcmp) path it is the same lexicographical comparison: comparing the bytes of the two
+    blocks compares the element sequences under the element `<` (all elements of such a list have one common size `c`) -/
+theorem vec_lt_fastpath_is_lexicographical (ps : List Param) (fa fb : List Nat) (a b : List Elem) (hne : ps ≠ [])
+    (hcond : (ps.all (·.ty.lexMemcmp) && isFixedOrPlain ps && storageAl ps == 1 && fixedSizesOf ps fa == fixedSizesOf ps fb) = true)
+    (hal : ∀ p ∈ ps, p.al ≤ 1) (c : Nat) (hc : 0 < c)
+    (hsz : ∀ e ∈ a ++ b, (runBytes ps e 0 (ps.length - 1)).length = c) :
+    vecLt ps fa fb a b = lexBy (elemLt ps) a b :=
+  vecLt_fastpath_is_lexicographical ps fa fb a b hne hcond hal c hc hsz
+
+/-- non-vacuity: `<FixedSize<uint8_t>, uint8_t>` with fixed size 2, elements of 3 bytes -/
+example :
+    let ps : List Param := [⟨.fixed, 1, 1, {}⟩, ⟨.plain, 1, 1, {}⟩]
+    (ps.all (·.ty.lexMemcmp) && isFixedOrPlain ps && storageAl ps == 1 && fixedSizesOf ps [2, 0] == fixedSizesOf ps [2, 0]) = true ∧
+    (∀ e ∈ [[[1, 2], [3]], [[1, 2], [4]]] ++ [[[1, 3], [0]]], (runBytes ps e 0 (ps.length - 1)).length = 3) := by
+  decide +kernel
 
 end Cntgs.C14
